@@ -60,7 +60,7 @@ def run_translators():
         out[what] = (rc, o.strip())
     return out
 
-TRANSLATORS = [('fieldtable', 'FieldTable.v')]
+TRANSLATORS = [('fieldtable', 'FieldTable.v'), ('syncskel', 'SyncSkeleton.v')]
 
 def coq_make():
     """Full .vo build (coq_makefile + make -k). Returns (all_ok, log, failed_files)."""
@@ -239,6 +239,28 @@ def run_driver(cases_file, workdir):
         orc.close()
     return [l.rstrip('\n') for l in open(m)], [l.rstrip('\n') for l in open(s)], nq
 
+def run_driver_parallel(cases_file, workdir, parts=12):
+    """The acceptance search is CPU bound and needs no shared state: shard the lines."""
+    from concurrent.futures import ThreadPoolExecutor
+    lines = [l for l in open(cases_file).read().split('\n') if l.strip()]
+    if len(lines) < 2 * parts:
+        return run_driver(cases_file, workdir)
+    def one(k):
+        d = os.path.join(workdir, 'shard%d' % k); os.makedirs(d, exist_ok=True)
+        f = os.path.join(d, 'cases.txt')
+        open(f, 'w').write('\n'.join(lines[k::parts]) + '\n')
+        return run_driver(f, d)
+    with ThreadPoolExecutor(max_workers=parts) as ex:
+        res = list(ex.map(one, range(parts)))
+    model = [None] * len(lines); spec = [None] * len(lines); nq = 0
+    for k, (m, sp, q) in enumerate(res):
+        idx = list(range(k, len(lines), parts))
+        for j, i in enumerate(idx):
+            model[i] = m[j] if j < len(m) else 'MISSING'
+            spec[i] = sp[j] if j < len(sp) else '-'
+        nq += q
+    return model, spec, nq
+
 def _limit_memory():
     import resource
     lim = 24 << 30
@@ -413,6 +435,17 @@ def run_batch(prop, dom, cases, work, tag):
         rc, impl = run_harness(dom, cf, binary=binary)
     if prop.get('no_model', {}).get(dom):
         model = ['-'] * len(cases); spec = ['-'] * len(cases); nq = 0
+    elif dom in prop.get('feed_impl', ()):
+        # the model decides whether what the implementation did is one of its runs: the driver
+        # gets the case together with the implementation's observation
+        cf2 = cf + '.fed'
+        open(cf2, 'w').write('\n'.join('%s || %s' % (c, (impl[i][0] if i < len(impl) else 'MISSING').replace(' ', '_'))
+                                        for i, c in enumerate(cases)) + '\n')
+        model, spec, nq = run_driver_parallel(cf2, work)
+        unexplored = sum(1 for m in model if m == 'ACCEPT-UNEXPLORED')
+        if unexplored:
+            log('%s: %d of %d histories exceeded the state bound of the acceptance search' % (dom, unexplored, len(cases)))
+        model = [(impl[i][0] if i < len(impl) else 'MISSING') if m.startswith('ACCEPT') else m for i, m in enumerate(model)]
     else:
         model, spec, nq = run_driver(cf, work)
     return impl, model, spec, nq
